@@ -3,7 +3,7 @@ claim("C09", "proof", "flow-sensitive must-lockset analysis over go/ssa CFG + ca
       "Proof of the mutual-exclusion / atomic-section clause: every access to guarded Cache state, every Store call and every callback call "
       "happens with the mutex held for the whole of a single critical section per method; nobody else can reach that state; no re-entry; "
       "no goroutines. This gives race freedom and linearizability relative to the sequential behaviour for every schedule, because the argument "
-      "is schedule-independent. It does NOT decide the sequential LRU behaviour (C08) or liveness.",
+      "is schedule-independent. It A Lock/Unlock whose mutex is addressed through a by-value copy of the cache (value receiver, local copy) is not an operation on the shared mutex and is reported. does NOT decide the sequential LRU behaviour (C08) or liveness.",
       BASE_NOTE + " Assumes callbacks do not re-enter the cache, a Store is not shared between caches, sync.Mutex semantics.",
       "DESIGN.md section 3, C09")
 claim("C16", "model_checking", "table extraction from the typed AST + exhaustive product construction against a POSIX reference transducer; SSA rules tie the interpreter loop to the table",
@@ -18,7 +18,7 @@ claim("C05", "other", "affine index-form extraction from go/ssa + must-pass-thro
       "Decides two necessary structural conditions of heap order named in the property's rationale: (1) the parent index used by sift-up and the child indices used by "
       "sift-down are mutually inverse (extracted as affine forms from the SSA; arithmetic on the constants), the children form one block and the root is nobody's child; "
       "(2) a slot overwritten at an arbitrary offset (Remove(i)) is sifted down and, unless that moved it, sifted up on every path; plus every bulk heapify loop covers all "
-      "internal nodes down to the root, and Each is stoppable. Today's tree violates (1): known finding F1 (see known_findings.json). Does NOT decide that Front/Pop is "
+      "internal nodes down to the root, and Each is stoppable. Today's tree violates (1): known finding F1 (see known_findings.json). (R-CMP-SIGN) comparison results are tested by sign only, also through a less(i, j) helper; (R-REORDER-INSTALLS) Reorder stores its argument as the comparison on every path; (R-SORT-INPLACE) nothing Sort reaches replaces the queue's buffer by a fresh allocation, because Sort's result is what is left in its argument. Does NOT decide that Front/Pop is "
       "minimal for every history, multiset conservation, or Sort's result.",
       BASE_NOTE + " Sift functions are located by role (loop + exchange call), names are not used.",
       "DESIGN.md section 3, C05")
@@ -41,20 +41,20 @@ claim("C17", "other", "provenance of slice expressions (3-index clip rule), non-
       "Decides structural clauses of the property: every subslice of the input handed out by Partition/Chunks/Batches is capacity-clipped (Max == High); no integer division or "
       "remainder in package slice can have a zero divisor (this is the 'never panics for an allowed argument' clause for the arithmetic faults; it found Batches(empty, n>0), "
       "repaired in /repo 2160ede); At/PtrAt index only under a successful strict range check; Partition writes its input only by exchange, so it stays a permutation. "
-      "Does NOT decide which elements end up where (Partition order, Rotate's permutation, chunk/batch lengths, Head/Tail/Stripe contents).",
+      "A subslice bound derived from cap(input) is a violation of the clip rule. Does NOT decide which elements end up where (Partition order, Rotate's permutation, chunk/batch lengths, Head/Tail/Stripe contents).",
       BASE_NOTE,
       "DESIGN.md section 3, C17")
 claim("C12", "other", "provenance (origin) analysis of every write event with callee mutation summaries; strictness/lean agreement read from the SSA",
       "Decides: none of LCS/LCSFunc/LIS/LISFunc/LNDS/LNDSFunc/bisectRight/EditScript/editScriptFunc nor their closures can write through an input slice (every element store, "
       "copy destination, append base, clear and mutating-callee argument has a provenance of allocations made in the function); and in LISFunc/LNDSFunc the strictness of the "
       "fast-path comparison agrees with the lean of the binary search used (LNDS: >= with right-leaning search read from bisectRight's body; LIS: > with left-leaning "
-      "slices.BinarySearchFunc) - the only documented difference between the two. Does NOT decide that the results are subsequences of maximum length.",
+      "slices.BinarySearchFunc) - the only documented difference between the two. (R-CMP-SIGN) comparison results are tested by sign only; the strict variant takes no shortcut on slices.IsSorted*; (R-SIBLING-GUARD) where an element of one input is compared with an element of the other, the dominating guards constrain both indices or neither. Does NOT decide that the results are subsequences of maximum length.",
       BASE_NOTE + " Standard-library mutators are a frozen table; user comparison callbacks are outside the rule.",
       "DESIGN.md section 3, C12")
 claim("C18", "other", "fresh-and-non-nil provenance analysis with per-function summaries; guarded-update path rule",
       "Decides: every set returned by New, NewSize, Clone, Intersect, Range, Keys and Values is allocated inside the call, provably non-nil, and never a parameter (so it cannot "
       "alias an argument); AddAll on a nil receiver stores a clone, not its argument; in pointer-receiver methods every update of *s is preceded on all paths by *s != nil or by "
-      "storing a fresh map. Does NOT decide the set-theoretic answers of Intersects/IsSubset/Equals/HasAll/HasAny/Intersect, Pop, or Slice/Append contents.",
+      "storing a fresh map. (R-LIST-WHOLE) a variadic list of items is never re-sliced to an upper bound other than its own length: every listed item counts. Does NOT decide the set-theoretic answers of Intersects/IsSubset/Equals/HasAll/HasAny/Intersect, Pop, or Slice/Append contents.",
       BASE_NOTE,
       "DESIGN.md section 3, C18")
 claim("C19", "other", "one-variable interval abstract interpretation (|buf|-cap) with transfer functions derived from mapset's bodies; store-shape and control-dependence rules",
@@ -90,7 +90,7 @@ claim("C08", "other", "in-block pairing of departures with callback/size/count e
       "very (key, value), one size -= sizeOf(value) and one count-1, and none of these happens without a departure; an arrival is paired with count+1 and a size that includes "
       "sizeOf(val); size only ever receives a value proved <= limit by the exit edge of the eviction loop `for size > limit` (or decreases by a sizeOf result); a Put larger than "
       "the limit is refused before any effect; Has uses only Store.Check, which (transitively) has no effects; every lastAccess is a freshly ticked clock value. "
-      "Does NOT decide which entry is evicted (needs a correct heap - C05/F1 - and a history argument) nor agreement with a reference LRU cache.",
+      "(R-CLEAR-ALL) every return of Clear lies behind a branch edge on which count <= 0 holds. Does NOT decide which entry is evicted (needs a correct heap - C05/F1 - and a history argument) nor agreement with a reference LRU cache.",
       BASE_NOTE + " Assumes the size function is non-negative.",
       "DESIGN.md section 3, C08")
 claim("C15", "model_checking", "explicit-state abstract execution of Quote and Join (callees inlined) over byte-class strings, composed with the tokenizer model extracted for C16 and with the POSIX reference transducer; exploration-based summaries of whole-string predicates; pool-discipline path rules",
@@ -112,7 +112,7 @@ claim("C01", "other", "provenance of clone's links; stop-flag path rule; orienta
       "walk and all four key descents (insert, remove, Get, pathTo), Min/Max, popMinRight, inorderAfter and the bulk loader agree with it, with comparator results tested by sign; "
       "popMinRight re-attaches the removed minimum's subtree; the root stored by Add/Replace/Remove derives from the modification's result on every changing path; New sorts and "
       "de-duplicates on every path to the bulk loader; the cached element count (Len, IsEmpty) changes only by +1 under a successful insertion, -1 under a successful removal, or to 0 "
-      "with the root dropped. Does NOT decide that contents and results equal a reference set over histories, the max bookkeeping, or the DSW rebuild.",
+      "with the root dropped. (R-CMP-SIGN) every test of the comparison's result against a constant is a pure sign test (x == -1 and the like are violations: comparisons may return a-b); (R-REBUILD-USED) the subtree returned by the in-place rebuild is returned or stored in a link, never dropped. Does NOT decide that contents and results equal a reference set over histories, the max bookkeeping, or the DSW rebuild.",
       BASE_NOTE + " Assumes iteration callbacks do not mutate the tree.",
       "DESIGN.md section 3, C01")
 claim("C03", "other", "dominance guard (Valid) on every cursor dereference; provenance of Clone's path; orientation table; sibling agreement (HasNext~Next, HasPrev~Prev); delegation rule for Inorder",
@@ -120,14 +120,14 @@ claim("C03", "other", "dominance guard (Valid) on every cursor dereference; prov
       "invalid path returns the receiver / false / the zero key - so operations on a nil or exhausted cursor are harmless no-ops; Clone copies the path (or returns the receiver "
       "only when invalid) so clones move independently; every navigation method reads the child sides binary-search-tree navigation requires relative to the in-order orientation; "
       "HasNext/HasPrev apply exactly the tests Next/Prev apply to findNext/findPrev's results, so they predict the move; Cursor.Inorder delegates to the subtree walker on the "
-      "current node and is stoppable. Does NOT decide that Next/Prev land on exactly the adjacent key for every tree shape, nor Cursor(key) validity.",
+      "current node and is stoppable. (R-ASCEND-GATED) Next (Prev) shortens or drops the path only on paths where a large-side (small-side) child link has been read, directly or in findNext/findPrev: the neighbour is an ancestor only when that subtree is empty. (R-CMP-SIGN) comparison results are tested by sign only. Does NOT decide that Next/Prev land on exactly the adjacent key for every tree shape, nor Cursor(key) validity.",
       BASE_NOTE,
       "DESIGN.md section 3, C03")
 claim("C04", "other", "dominance guard (!= nil) with kill check on every use of the tree pointer; shared stree rules (descents, relink, cursor nil-safety); reset-first rule for Seek",
       "Decides: 'a zero Map behaves as an empty read-only map' - every use of Map.m / Iter.m as a (bound) method receiver in package omap is under a != nil guard of the same field "
       "(Map.Set exempt as documented), and the cursor methods omap calls on a possibly nil cursor are nil-safe (C03's guard rule re-run); the tree's key descents agree with "
       "iteration order and test comparator results by sign; deleting a two-child node re-attaches the successor's subtree; Seek invalidates the cursor before searching so a seek "
-      "past the last key leaves the iterator invalid. Does NOT decide agreement with a reference sorted map, Seek's exact position, or iterator order.",
+      "past the last key leaves the iterator invalid. (R-NATURAL-ORDER) omap.New installs cmp.Compare, or a comparison that reaches it or handles x != x: a hand-written three-way comparison on < and > makes NaN equal to every key. (R-REBUILD-USED, R-ROOT-FLOW, shared with C01) the rebuilt subtree and the modified root are kept. Does NOT decide agreement with a reference sorted map, Seek's exact position, or iterator order.",
       BASE_NOTE,
       "DESIGN.md section 3, C04")
 claim("C11", "other", "provenance of span fields in Edit literals; index-variable side separation; opcode/field table; exhaustiveness of EditOp switches (typed AST)",
@@ -143,7 +143,7 @@ claim("C13", "other", "who-may-write rule on Diff.Edits; provenance/aliasing rul
       "(so merging cannot write into Left, Right, the script or the other span); Unify edits the chunk's own edit list (not local copies) and keeps chunks apart only across a "
       "strict gap; every update of a chunk's left range has the mirrored update of its right range in the same block (in New: each range end advances together with that side's "
       "running position, by the number of X resp. Y lines of the edit); no chunk's edit list is a slice of the script; an index into Left/Right is bounded by its own length, not "
-      "only by the sibling's. Does NOT decide that ranges and edits describe a correct "
+      "only by the sibling's. (R-SIBLING-GUARD) where d.Left[p] is compared with d.Right[q] the dominating guards constrain both indices or neither. Does NOT decide that ranges and edits describe a correct "
       "patch; context found by positional comparison across a neighbouring chunk (a data-dependent fault known from earlier dynamic work) has no structural signature.",
       BASE_NOTE,
       "DESIGN.md section 3, C13")
@@ -152,7 +152,7 @@ claim("C14", "other", "inconsistent-belief rule on the span parser's sentinel; w
       "known finding, see known_findings.json); the constants the Unified and Normal writers emit and the constants the readers classify by agree by value (line prefixes per "
       "opcode and payload offsets, '@@' tokens and span tags, file-header prefixes, name/time separator, change-command letters and their opcodes, '< ' '> ' '---'); both header "
       "timestamps are parsed with the writers' default format constant; every formatter and the reader handle all opcodes; overlapping context is trimmed from the correct end; "
-      "the git-patch reader does not reuse the backing array of chunks it already returned. Does NOT decide byte-for-byte re-formatting or that a rendering applied by the "
+      "the git-patch reader does not reuse the backing array of chunks it already returned. (R-HEADER-SIDES) a header-writing call receives a (name, time) pair of FileInfo fields that the reader fills from one header line; (R-LINE-EXACT) the readers' line source removes nothing but the final newline (no bufio.Scanner with the default split, ReadLine, TrimSpace/TrimRight); (R-BOUND-SIDE, R-SIBLING-GUARD, shared with C13) context lines are indexed under guards on their own side. Does NOT decide byte-for-byte re-formatting or that a rendering applied by the "
       "published rules turns Left into Right; the spelling of empty ranges (a conformance fault known from earlier dynamic work) has no structural signature and is not decided.",
       BASE_NOTE,
       "DESIGN.md section 3, C14")
@@ -160,7 +160,7 @@ claim("C02", "other", "affine/guard rules on the recursive insertion's depth bud
       "Decides ONLY that the mechanism enforcing the bound is wired, not the bound itself: the recursive insertion's depth budget decreases by a positive constant on both "
       "descents, creating a node with the budget exhausted raises the 'too deep' flag, Add/Replace start the budget from limit(size[+1]); under a raised flag and "
       "height > limit(subtree size) the subtree is rebuilt with (sibling size + 1 + flagged size), the rebuilt subtree is returned and the flag cleared. Each is a necessary "
-      "condition of the height bound (without it ascending insertions grow an unbounded path). Does NOT decide the numeric bound (floating-point limitFunc, scapegoat choice, "
+      "condition of the height bound (without it ascending insertions grow an unbounded path). The goat criterion's limit is taken for the very size the subtree is rebuilt with (same terms, same constant). (R-LOOKUP-COST, the property's last clause) everything Tree.Get reaches compares keys at exactly one site, inside the descent: one comparison per level. Does NOT decide the numeric bound (floating-point limitFunc, scapegoat choice, "
       "that the DSW rebuild balances, delete-side threshold) nor the minimum-height claim for New - for those no sound static argument is in reach.",
       BASE_NOTE + " This is the weakest claim in the manifest: a wiring check, kept because each obligation is a genuine necessary condition.",
       "DESIGN.md section 3, C02 and section 8.2")
